@@ -43,6 +43,10 @@ def scan_units(vdir=None):
         m = UNIT_RE.search(text)
         if not m:
             continue
+        try:
+            text = "\n".join(expand_includes(os.path.join(vdir, name)))
+        except (ValueError, FileNotFoundError):
+            pass
         kv = dict(tok.split("=", 1) for tok in m.group(1).split() if "=" in tok)
         fns = re.findall(r"//@extract\s+(\S+)\s+(\S+)", text)
         lemmas = re.findall(r"proof fn (lemma_\w+)", text)
@@ -53,9 +57,25 @@ def scan_units(vdir=None):
     return units
 
 
+def expand_includes(path, depth=0):
+    """`//@include name` pulls in vspec/inc/name (shared preludes; may contain directives and further includes)."""
+    out = []
+    for ln in open(path).read().split("\n"):
+        if ln.strip().startswith("//@include "):
+            if depth > 5:
+                raise ValueError("include depth")
+            inc = os.path.join(os.path.dirname(path) if os.path.basename(os.path.dirname(path)) == "inc" else os.path.join(os.path.dirname(path), "inc"), ln.strip().split()[1])
+            out.append("// ---- begin include %s" % os.path.basename(inc))
+            out.extend(expand_includes(inc, depth + 1))
+            out.append("// ---- end include %s" % os.path.basename(inc))
+        else:
+            out.append(ln)
+    return out
+
+
 def generate(unit, repo):
     """Returns (generated_text, info) or raises SystemExit-like ValueError on a lost anchor."""
-    lines = open(unit["file"]).read().split("\n")
+    lines = expand_includes(unit["file"])
     out = []
     info = {"rules": {}, "dropped": [], "substs": [], "extracted": [], "consts": [], "line_map": []}
     i = 0
